@@ -1,0 +1,29 @@
+//go:build verif
+
+package calcium
+
+import (
+	"github.com/projecteru2/core/resource"
+	"github.com/projecteru2/core/store"
+	"github.com/projecteru2/core/wal"
+)
+
+// VerifInterpose lets a verification harness wrap the three private collaborators of a
+// Calcium (metadata store, resource manager, write-ahead log) with observing / fault-injecting
+// decorators. A nil function leaves the collaborator as it is. Only compiled with -tags verif.
+func (c *Calcium) VerifInterpose(ws func(store.Store) store.Store, wr func(resource.Manager) resource.Manager, ww func(wal.WAL) wal.WAL) {
+	if ws != nil {
+		c.store = ws(c.store)
+	}
+	if wr != nil {
+		c.rmgr = wr(c.rmgr)
+	}
+	if ww != nil {
+		c.wal = ww(c.wal)
+	}
+}
+
+// VerifIdle reports whether no task of this Calcium's worker pool is running (quiescence).
+func (c *Calcium) VerifIdle() bool {
+	return c.pool.Running() == 0
+}
